@@ -40,7 +40,7 @@ def _closed_form(c, name, d, cdot):
         c.goal('range: 0 <= d <= pi', And(ge(d, 0), le(d, PI_)))
 
 
-@contract('C18', 'matrix-metric', variants=[dict(f=f) for f in MAT], budget_s=200,
+@contract('C18', 'matrix-metric', variants=[dict(f=f) for f in MAT], budget_s=600, optional=True,
           functions=['metrics.chordal', 'metrics.identity_deviation', 'metrics.angular_distance', 'DCM.log',
                      'metrics._rotations_guard_clauses'])
 def c_mat(c):
@@ -197,7 +197,7 @@ def c_dot_inv(c):
     c.goal('right.unit', And(eq(dot(qmul(p, a), qmul(p, a)), 1), eq(dot(qmul(q, a), qmul(q, a)), 1)))
 
 
-@contract('C18', 'zero-set', variants=[dict(f=f) for f in MAT + QUAT], budget_s=120,
+@contract('C18', 'zero-set', variants=[dict(f=f) for f in MAT + QUAT], budget_s=300, optional=True,
           functions=['metrics.chordal', 'metrics.identity_deviation', 'metrics.angular_distance', 'metrics.qdist',
                      'metrics.qeip', 'metrics.qcip', 'metrics.qad'])
 def c_zero(c):
